@@ -203,8 +203,10 @@ func c11Special() *core.Scenario {
 
 func init() {
 	register(&Property{
-		ID:        "C11",
-		Scenarios: func(tier string) []*core.Scenario { return []*core.Scenario{c11Scenario(tier), c11Special()} },
+		ID: "C11",
+		Scenarios: func(tier string) []*core.Scenario {
+			return []*core.Scenario{c11Scenario(tier), c11Special(), c11AliasScenario()}
+		},
 		Assumptions: []string{
 			"differential oracle: the fully inlined program (literals written in place) is the reference; what it should assemble to is the subject of C01-C06",
 			"cases in which the inlined program itself is diagnosed are not judged",
